@@ -118,12 +118,14 @@ promises a clause), and at `nlines + 1` after a comment without final newline; t
 `cnf_error_in_range` are attained. -/
 example :
     (parseAll .cnf ⟨32⟩ false (LR.init [49, 32, 120] false)).final = some (.syn 1 3) ∧
-    (parseAll .cnf ⟨32⟩ false (LR.init [49, 32, 48, 10, 50, 32, 120, 10] false)).final = some (.syn 2 3) ∧
+    (parseAll .cnf ⟨32⟩ false (LR.init [49, 32, 48, 10, 50, 32, 120, 10] false)).final =
+      some (.syn 2 3) ∧
     (parseAll .cnf ⟨32⟩ false (LR.init [112, 32, 99, 110, 102, 32, 49, 32, 49, 10] false)).final =
       some (.syn 2 1) ∧
     nlines [112, 32, 99, 110, 102, 32, 49, 32, 49, 10] = 1 ∧
-    (parseAll .cnf ⟨32⟩ false (LR.init [112, 32, 99, 110, 102, 32, 49, 32, 49, 10, 99, 32, 120] false)).final =
-      some (.syn 3 1) ∧
+    (parseAll .cnf ⟨32⟩ false
+      (LR.init [112, 32, 99, 110, 102, 32, 49, 32, 49, 10, 99, 32, 120] false)).final =
+        some (.syn 3 1) ∧
     nlines [112, 32, 99, 110, 102, 32, 49, 32, 49, 10, 99, 32, 120] = 2 ∧
     lineLen [49, 32, 120] 1 = 3 := by
   decide +kernel
@@ -131,9 +133,11 @@ example :
 /-- A range error at the start of the numeral: `"p cnf 99999999999999999999 1"` with 64-bit
 literals is reported at column 7, an out-of-range literal `"1 300 0"` for `i8` at column 3. -/
 example :
-    (parseAll .cnf ⟨64⟩ false (LR.init ([112, 32, 99, 110, 102, 32] ++ List.replicate 20 57 ++ [32, 49, 10]) false)).final =
-      some (.syn 1 7) ∧
-    (parseAll .cnf ⟨8⟩ false (LR.init [49, 32, 51, 48, 48, 32, 48, 10] false)).final = some (.syn 1 3) := by
+    (parseAll .cnf ⟨64⟩ false
+      (LR.init ([112, 32, 99, 110, 102, 32] ++ List.replicate 20 57 ++ [32, 49, 10]) false)).final =
+        some (.syn 1 7) ∧
+    (parseAll .cnf ⟨8⟩ false (LR.init [49, 32, 51, 48, 48, 32, 48, 10] false)).final =
+      some (.syn 1 3) := by
   decide +kernel
 
 end Flussab.C08
